@@ -201,6 +201,9 @@ Print Assumptions ing_rewrite_safe.
 Print Assumptions ing_rewrite_then_semi.
 Print Assumptions limit_req_key_bare_safe.
 Print Assumptions rewrite_path_safe.
+Print Assumptions ip_or_cidr_word.
+Print Assumptions regex_path_quoted.
+Print Assumptions route_path_location_safe.
 Print Assumptions rewrite_path_default_action_refuted.
 Print Assumptions ing_rate_word.
 Print Assumptions http_header_name_word.
